@@ -121,11 +121,13 @@ class sptenmat:
             "Incorrect specification of dimensions, the sorted concatenation of "
             "rdims and cdims must be range(len(tshape))."
         )
-        assert subs.size == 0 or np.prod(np.array(tshape)[rdims]) >= np.max(
-            subs[:, 0]
+        assert subs.size == 0 or (
+            np.prod(np.array(tshape)[rdims]) > np.max(subs[:, 0])
+            and np.min(subs[:, 0]) >= 0
         ), "Invalid row index."
-        assert subs.size == 0 or np.prod(np.array(tshape)[cdims]) >= np.max(
-            subs[:, 1]
+        assert subs.size == 0 or (
+            np.prod(np.array(tshape)[cdims]) > np.max(subs[:, 1])
+            and np.min(subs[:, 1]) >= 0
         ), "Invalid column index."
 
         # Sum any duplicates
